@@ -38,7 +38,9 @@ CHECKS = {
          "4 C05", "Coq proof by induction over the argument list on the engine model + correspondence + oracle"),
  "C06": ("declarative Fits (exists instantiation with x <= alt) and a matcher proved equivalent for linear "
          "alternatives (refuted for non-linear), monotone, = Sub for concrete alternatives; engine model proved to "
-         "accept iff fits for one base alternative; every generated case's accept/reject compared with the verified "
+         "accept iff fits for any list of base alternatives (C06_list) and, for the pattern alternatives F(b) and "
+         "C(b) | R(b, _), to select the unique fitting alternative and resolve b by it, with the exact final store "
+         "(C06_pat; boundary: Bottom fits every alternative and leaves b open); every generated case's accept/reject compared with the verified "
          "matcher, unique-fit and between-ness oracles",
          "4 C06", "Coq proof of the fits decision procedure + engine correspondence + oracle"),
  "C07": ("annotation half of add_expr and add_type with the type_nodes memo under all nine switches, on top of the "
@@ -110,7 +112,9 @@ CHECKS = {
  "C12": ("add_workflow modelled on top of the add_expr model: for every well-formed workflow (any sharing, any listing "
          "order, passthrough on/off) the map covers every resource with one node each, every tool's subgraph is the flow "
          "of its expression fed by its producers (own source nodes with passthrough off), inputs/outputs marked, and with "
-         "passthrough on the graph is the flow of the inlined expression (C12_plugged, C12_inline); source_types "
+         "passthrough on the graph is the flow of the inlined expression (C12_plugged, C12_inline); C12_handon_plugged "
+         "extends this to tools that hand an input on (`1`, `1: T`; resources share a node exactly along hand-on chains) - "
+         "proving it exposed two KeyErrors of add_workflow, repaired in 5e78fd2/1f88f3e and refuted for the pinned model; source_types "
          "order-independent and = the Sub-least annotation (C12_source_types_perm/spec); typed half (node types vs the "
          "inlined expression, WorkflowDict vs WorkflowGraph, every listing order) is implementation-vs-implementation "
          "testing; one known finding (inference order across tools)",
@@ -132,9 +136,10 @@ CHECKS = {
          "(store invariant preserved by all eight mutually recursive operations); pure readers proved to fail only by "
          "fuel and to terminate under a depth bound; C17_term_sub_prog: every program whose schemas are constraint-free "
          "or carry subtype constraints x <= A ends, within an explicit fuel bound, with a result or one of the five declared "
-         "typing errors; parser half: C17_parse_total - the fixed parser never crashes on "
+         "typing errors, C17_term_elim_prog: the same for schemas with elimination constraints over base-type "
+         "alternatives (nested re-check rounds bounded by the number of unfulfilled elimination constraints); parser half: C17_parse_total - the fixed parser never crashes on "
          "any token list; harness: undeclared exception classes, printing, per-case time bound, token-level fuzzing of "
-         "/repo against the parser model; termination with elimination constraints is observed (per-case time bound), not proved",
+         "/repo against the parser model; termination with compound or variable alternatives is observed (per-case time bound), not proved",
          "4 C17", "Coq proof (invariant by induction on fuel; parser totality) + correspondence + exception-class oracle + fuzzing"),
  "C18": ("schedules proved to only permute the pending constraints (C18_permute); the property itself is REFUTED on "
          "the faithful model and on the code for the error kind (C18_refuted) and for the result when elimination "
